@@ -360,6 +360,22 @@ def forms_case(case, res):
         except Exception as e:
             res.violation("kwargs|where=|raised", f"{type(e).__name__}: {e}", case, None)
         res.hits["ufunc keyword arguments"] += 1
+    # out= / in-place with signals of ZERO time samples (valid signals; must still return the given object)
+    if kind != "b":
+        a0, b0, c0 = make_sig(cls, dt, be)[2:2], make_sig(cls, dt, be, True)[2:2], make_sig(cls, dt, be, True)[3:3]
+        c0.meta = {"target": True}
+        try:
+            r = np.add(a0, b0, out=c0)
+            res.transitions += 1
+            if r is not c0 or r.meta != {"target": True}:
+                res.violation("out=|zero-length target|identity", "np.add(a, b, out=c) with zero-length signals did not return c", case, None)
+            ident = a0
+            a0 += b0
+            if a0 is not ident:
+                res.violation("in-place|zero-length|identity", "'a += b' on a zero-length signal rebound the name to a new object", case, None)
+            res.hits["zero-length out= target"] += 1
+        except Exception as e:
+            res.violation("out=|zero-length target|raised", f"{type(e).__name__}: {e}", case, None)
     if kind in "fc":
         # two outputs with out tuples
         for outform in ("(z,None)", "(None,z)", "(z,z2)"):
@@ -549,7 +565,7 @@ def main(argv=None):
         PID, gen_cases=gen_cases, check_case=check_case, describe=describe,
         required_hits=["reference raises: signal call raises too", "result dtype not admitted -> ValueError", "two outputs",
                        "python float/complex scalar with integer or bool signal", "signals of two classes", "operators",
-                       "out= returns the same object", "two-output out= tuple", "in-place chains", "in-place with scaled dimensionless Quantity", "result modified in place, operand unchanged", "ufunc keyword arguments", "refused with TypeError",
+                       "out= returns the same object", "two-output out= tuple", "in-place chains", "zero-length out= target", "in-place with scaled dimensionless Quantity", "result modified in place, operand unchanged", "ufunc keyword arguments", "refused with TypeError",
                        "array conversion", "conversion, in-place write, conversion"],
         assumptions=["NumPy dispatches a binary ufunc to a strict-subclass operand first, so for (superclass signal, subclass signal) the "
                      "type of the result is left open", "for Dask data an error may surface at compute time"],
